@@ -24,12 +24,13 @@ from vf.serverconn import ConnHarness, model_projection  # noqa: E402
 
 FLAG_NAMES = ["OneResponse", "WellFormed", "NeverTorn", "ThenClosed", "GateC04", "NoneBeyondRefusal",
               "FirstRejectionWins", "AtMostOnce", "TimerWhileWaiting", "AnsweredWhenQuiet", "SegIndep",
-              "OnlyValidReachHandler", "Progress", "TimeoutHarmless", "TimeoutAnswers", "ConsultedWithRealIdentity"]
+              "OnlyValidReachHandler", "Progress", "TimeoutHarmless", "TimeoutAnswers", "ConsultedWithRealIdentity",
+              "RefusalNotPreempted"]
 OWN = {
     # TimerWhileWaiting is C01's "stalled past the request timeout => a response": an open connection with an
     # incomplete request and no armed timer is never answered
     "C01": ["OneResponse", "WellFormed", "NeverTorn", "ThenClosed", "AnsweredWhenQuiet", "TimerWhileWaiting", "Progress"],
-    "C04": ["GateC04", "NoneBeyondRefusal", "FirstRejectionWins", "ConsultedWithRealIdentity"],
+    "C04": ["GateC04", "NoneBeyondRefusal", "FirstRejectionWins", "ConsultedWithRealIdentity", "RefusalNotPreempted"],
     "C07": ["AtMostOnce", "SegIndep", "Progress"],
     "C08": ["OnlyValidReachHandler", "SegIndep", "Progress"],
     "C15": ["TimerWhileWaiting", "TimeoutHarmless", "TimeoutAnswers"],
